@@ -10,12 +10,14 @@ export GOFLAGS=-mod=mod GOPROXY=off
 [ -f $S/patch.diff ] || { echo "no patch.diff"; exit 2; }
 [ -f $S/demo.sh ] || { echo "no demo.sh (looking for test files)"; ls $S; }
 cd $W
+# the worktree is reset to exactly .seed/patch.diff (never git stash: refs/stash is shared by all worktrees)
+git checkout -q -- . && git apply $S/patch.diff || { echo "patch.diff does not apply"; exit 2; }
+git diff > /tmp/seed/$ID.patch
 echo "--- files changed:"; git diff --stat | tail -5
 echo "--- build:"; go build ./... && echo build-ok
 echo "--- demo WITH change:"; (bash $S/demo.sh >/tmp/seed/$ID.demo.with 2>&1; echo "rc=$?"); tail -3 /tmp/seed/$ID.demo.with | cut -c1-200
-git stash -q
+git apply -R /tmp/seed/$ID.patch
 echo "--- demo WITHOUT change:"; (bash $S/demo.sh >/tmp/seed/$ID.demo.without 2>&1; echo "rc=$?"); tail -2 /tmp/seed/$ID.demo.without | cut -c1-200
-git stash pop -q
+git apply /tmp/seed/$ID.patch
 echo "--- pinned suite with the change:"; BASELINE_REPO=$W /verif/tools/baseline.sh /tmp/seed/$ID.baseline.json | tail -4; rm -f /tmp/seed/$ID.baseline.json
-git diff > /tmp/seed/$ID.patch
 echo "--- our checks:"; cd /verif && tools/trymut.sh /tmp/seed/$ID.patch $CHECKS 2>&1 | cut -c1-330
